@@ -87,6 +87,9 @@ def run(ctx):
                       "(a truthiness test serializes the empty tuple of a length-0 Tuple as null while the schema says array) -- shared with R15.d", floor=4)
     ctx.not_decided += ["that arbitrary serialized values validate against the schema (needs a validator run)", "Selector enum contents (run-time objects)"]
     from checks.c15 import codec_none_guards
+    ctx.rule("R16.k", "class schema model: JSONSerialization.class__schema interpreted for tuples of classes ((int, float), (float, int), (int, str), (str, int, float)): the schema admits the "
+                      "JSON type of the instances of EVERY class of the tuple (`number` for float even when int comes first)", floor=1)
+    class_schema_model(ctx, "R16.k")
     codec_none_guards(ctx, "R16.n", only=("Tuple", "NumericTuple", "XYCoordinates", "Range", "Date", "CalendarDate", "DateRange", "CalendarDateRange"))
     cls = ctx.repo.cls(SER)
     methods = {m for m in cls.methods if m.endswith("_schema")}
@@ -465,3 +468,57 @@ def run(ctx):
         else:
             ctx.ok("R16.t", sch, sch.node, "%s is serialized as it is; %s lists the objects" % (cq.rsplit(".", 1)[-1], sch.name))
     ctx.require(n_t >= 3, "fewer than 3 Parameter types with an enum schema found (%d)" % n_t)
+
+
+def class_schema_model(ctx, rule):
+    """JSONSerialization.class__schema interpreted for a tuple of classes -- (int, float), (float, int), (int, str),
+    (str, int, float) -- with the class-to-JSON-type table supplied by the model.
+
+    Specification: the schema admits, for every class of the tuple, the JSON type of that class's instances: `number`
+    for float (an integer-only schema rejects 2.5 although the validator accepts it), `integer` or `number` for int,
+    `string` for str."""
+    from engine.absint import Interp, Obj, Unsupported
+    f = ctx.repo.method(SER, "class__schema")
+    table = {"<type int>": "integer", "<type float>": "number", "<type str>": "string"}
+    problems, n = [], 0
+    for tup in (("<type int>", "<type float>"), ("<type float>", "<type int>"), ("<type int>", "<type str>"), ("<type str>", "<type int>", "<type float>")):
+        me = Obj("JSONSerialization", json_schema_literal_types=dict(table))
+
+        def hook(fn, args, kwargs):
+            if fn == "isinstance" and len(args) == 2 and args[1] == "<type tuple>":
+                return isinstance(args[0], tuple)
+            if fn == "issubclass":
+                return False
+            return NotImplemented
+        it = Interp(ctx.hier, dyn=SER, inline=lambda m: m == "class__schema", call_hook=hook, globals={"Parameterized": Obj("Parameterized")})
+        try:
+            outs = it.run_all(f, {f.params[0]: me, f.params[1]: tup, "safe": False})
+        except Unsupported as e:
+            raise AnalysisError("%s: absint cannot interpret class__schema: %s" % (rule, e))
+        if len(outs) != 1 or outs[0].imprecise or outs[0].kind != "return" or not isinstance(outs[0].value, dict):
+            raise AnalysisError("%s: class__schema is not interpretable precisely (%s)" % (rule, outs[0].notes[:2] if outs else "no outcome"))
+        n += 1
+        sch = outs[0].value
+
+        def admitted(s):
+            if not isinstance(s, dict):
+                raise AnalysisError("%s: class__schema emits a sub-schema the model cannot read (%r)" % (rule, s))
+            if "anyOf" in s:
+                out = set()
+                for x in s["anyOf"]:
+                    out |= admitted(x)
+                return out
+            t = s.get("type")
+            return set(t) if isinstance(t, (list, tuple)) else {t}
+        types = admitted(sch)
+        for c in tup:
+            want = table[c]
+            if not (want in types or (want == "integer" and "number" in types)):
+                problems.append("class_=(%s): the schema admits the JSON types %s, specification: also `%s` (the validator accepts %s values, e.g. 2.5 for float)" % (
+                    ", ".join(x[6:-1] for x in tup), sorted(x for x in types if x), want, c[6:-1]))
+    ctx.abstract_cases += n
+    if problems:
+        ctx.fail(rule, f, f.node, "class schema model: %s (%d problem(s))" % (problems[0], len(problems)), key=f.qualname + "::tuple-of-classes",
+                 input="ClassSelector(class_=(int, float)) holding 2.5; List(item_type=(int, float)) holding [1, 2.5]")
+    else:
+        ctx.ok(rule, f, f.node, "class schema model: for a tuple of classes the schema admits the JSON type of every class of the tuple (%d tuples)" % n)
